@@ -285,14 +285,71 @@ def rule_prefix(model):
     if not strip_ok and not bad_split:
         raise AnalysisError('sequence_variables.__getitem__: alias '
                             'recognition not understood')
-    src = ast.unparse(a.node)
-    r.instance(a.where, 'name[len(dp):]')
-    if "startswith(dp + '-')" not in src or 'name[len(dp):]' not in src:
+    def is_dp(e):
+        if norm(e) == 'self.defprefix':
+            return True
+        if isinstance(e, ast.Name):
+            defs = model.local_defs(a, e.id)
+            return len(defs) == 1 and isinstance(defs[0], ast.AST) and \
+                norm(defs[0]) == 'self.defprefix'
+        return False
+    tested = stripped = None
+    for n in own_nodes(a.node):
+        if isinstance(n, ast.Call) and isinstance(n.func, ast.Attribute) \
+                and n.func.attr == 'startswith' and n.args and \
+                isinstance(n.args[0], ast.BinOp) and \
+                isinstance(n.args[0].op, ast.Add) and \
+                is_dp(n.args[0].left) and \
+                isinstance(n.args[0].right, ast.Constant) and \
+                n.args[0].right.value == '-':
+            tested = norm(n.func.value)
+        if isinstance(n, ast.Subscript) and isinstance(n.slice, ast.Slice) \
+                and n.slice.upper is None and n.slice.step is None and \
+                isinstance(n.slice.lower, ast.Call) and \
+                norm(n.slice.lower.func) == 'len' and \
+                len(n.slice.lower.args) == 1 and \
+                is_dp(n.slice.lower.args[0]):
+            stripped = norm(n.value)
+    r.instance(a.where, f'{tested}.startswith(defprefix + "-") / '
+               f'{stripped}[len(defprefix):]')
+    if tested is None or stripped is None or tested != stripped:
         r.finding(a.where, 'prefix strip', 'Add_with_prefix does not strip '
                   'the default prefix by its own length', node=a.node,
                   ctx=a)
     r.require_floor(15)
     return r
+
+
+def _key_prefix(model, fi, k, _depth=0):
+    """The constant text a computed dictionary key starts with, up to the
+    first run-time part: 'mean-%s' % n, f'mean-{n}', 'mean-' + n,
+    'mean-{}'.format(n), or a local name bound once to one of these."""
+    if isinstance(k, ast.Constant) and isinstance(k.value, str):
+        return k.value
+    if isinstance(k, ast.BinOp) and isinstance(k.op, ast.Mod) and \
+            isinstance(k.left, ast.Constant) and \
+            isinstance(k.left.value, str):
+        return k.left.value.split('%')[0]
+    if isinstance(k, ast.BinOp) and isinstance(k.op, ast.Add):
+        return _key_prefix(model, fi, k.left, _depth)
+    if isinstance(k, ast.JoinedStr):
+        out = ''
+        for v in k.values:
+            if isinstance(v, ast.Constant):
+                out += v.value
+            else:
+                break
+        return out
+    if isinstance(k, ast.Call) and isinstance(k.func, ast.Attribute) and \
+            k.func.attr == 'format' and isinstance(
+                k.func.value, ast.Constant) and \
+            isinstance(k.func.value.value, str):
+        return k.func.value.value.split('{')[0]
+    if isinstance(k, ast.Name) and _depth < 3:
+        defs = [d for d in model.local_defs(fi, k.id)]
+        if len(defs) == 1 and isinstance(defs[0], ast.AST):
+            return _key_prefix(model, fi, defs[0], _depth + 1)
+    return None
 
 
 def rule_providers(model):
@@ -349,11 +406,9 @@ def rule_providers(model):
     for n in own_nodes(stat.node):
         if isinstance(n, ast.Assign) and \
                 isinstance(n.targets[0], ast.Subscript):
-            k = n.targets[0].slice
-            if isinstance(k, ast.BinOp) and isinstance(k.left, ast.Constant):
-                assigned.add(k.left.value.replace('-%s', ''))
-            elif isinstance(k, ast.JoinedStr):
-                pass
+            pre = _key_prefix(model, stat, n.targets[0].slice)
+            if pre and pre.endswith('-'):
+                assigned.add(pre[:-1])
     registered = any(isinstance(n, ast.For) and
                      norm(n.iter) == 'statistic_names' and
                      'special_prefixes' in ast.unparse(n)
